@@ -1,7 +1,8 @@
 (* C02 — aliased fill paints exactly the pixels whose centres lie inside the path
    (fixed-point scan converter, line edges; curves and the float clipper are partial). *)
 From Coq Require Import ZArith List.
-From TS Require Import Base.F32 Model.Rect Model.PathBuilder Model.Edge Model.Walk Proofs.WalkProofs.
+From Coq Require Import Permutation.
+From TS Require Import Base.F32 Model.Rect Model.PathBuilder Model.Edge Model.Walk Proofs.WalkProofs Proofs.EdgeAccuracy Proofs.WalkSorted Proofs.WalkRows Proofs.WalkBalanced.
 Import ListNotations.
 Local Open Scope Z_scope.
 
@@ -43,3 +44,59 @@ Proof. exact walk_row_is_row_spans. Qed.
 Example C02_nonvacuous :
   exists sp, fill_spans [mkedge 131072 0 2 5 1; mkedge 655360 (-65536) 2 5 (-1)] 2 6 20 false 0 = Some sp /\ length sp = 4%nat.
 Proof. eexists. split; vm_compute; reflexivity. Qed.
+
+(* accuracy of the fixed-point edge abscissa: on row first_y + k the FDot16 value the walker uses (e_x + k * e_dx) is within
+   (1025 + k) / 65536 px of the exact line through the edge's FDot6 end points taken at the row centre (1/64 px from the
+   truncated start, one unit of truncated slope per row); stated without division, multiplied by 64 * (yb - ya).
+   Hypotheses: coordinates below 2^18 px, slope below 32768 (otherwise fdot16::div clamps). *)
+Theorem C02_line_edge_x_accuracy :
+  forall p0 p1 shift e,
+  line_edge_new p0 p1 shift = Some (Some e) ->
+  let '(xa, ya, xb, yb) := edge_ends p0 p1 shift in
+  Z.abs ya <= 16777216 -> Z.abs (xb - xa) < 32768 * (yb - ya) ->
+  forall k, 0 <= k ->
+  let X := e_x e + k * e_dx e in
+  Z.abs (64 * ((yb - ya) * X - 1024 * xa * (yb - ya)) - 65536 * (xb - xa) * (64 * (e_first_y e + k) + 32 - ya))
+    <= 64 * (yb - ya) * (1025 + k).
+Proof. exact line_edge_x_accuracy. Qed.
+
+(* the list algorithms of the walker: insert_new_edges (backward scan + forward merge) of two lists sorted by x is sorted by x
+   and is a permutation of their concatenation *)
+Theorem C02_insert_new_edges_spec :
+  forall act news, asc act -> asc news ->
+  asc (insert_new_edges act news) /\ Permutation (insert_new_edges act news) (act ++ news).
+Proof. exact insert_new_edges_spec. Qed.
+
+(* THE fill theorem of the model (line-only paths inside the clip, fill_path_impl's sort + walk_edges): on every walked row yy
+   the active list is sorted by x and is, up to order, the set of edges whose row range contains yy, each advanced by its slope
+   once per row since its first row; and, when the windings of that row are balanced under the fill rule (closed contours),
+   a pixel column c is covered by the emitted spans of row yy exactly when the fill rule accepts the sum of the windings of the
+   active edges whose rounded abscissa is at or left of c.  With C02_edge_rows (which rows an edge is active on) and
+   C02_line_edge_x_accuracy (where its abscissa is) this is the pixel-centre rule up to the fixed-point error. *)
+Theorem C02_fill_spans_spec :
+  forall es start stop rc eo out,
+  fill_spans es start stop rc eo 0 = Some out ->
+  wf_edges es -> (forall e, In e es -> start <= e_first_y e) -> 0 <= start -> 0 <= stop ->
+  exists acts : Z -> list ledge,
+    (forall yy, start <= yy -> (yy < stop \/ yy = start) -> asc (acts yy) /\ Permutation (acts yy) (active_at es yy)) /\
+    forall yy c, start <= yy -> (yy < stop \/ yy = start) ->
+      (forall e, In e (acts yy) -> x_ok e) -> masked (sumw (active_at es yy)) eo = false ->
+      (cov out yy c <-> masked (wsum (xs_of (active_at es yy)) c) eo = true).
+Proof. exact fill_spans_spec. Qed.
+
+(* every row is balanced, for every path: path_lines closes every contour, LineEdge::new gives each segment the winding and the
+   rows that make its contribution telescope, and combine_vertical only merges or cancels vertical edges without changing a row *)
+Theorem C02_build_edges_balanced :
+  forall p shift es, build_edges p shift = Some (Some es) -> (forall y, rowsum es y = 0) /\ Forall wf1 es.
+Proof. exact build_edges_balanced. Qed.
+
+(* the fill theorem for the edges of any line-only path: no balance hypothesis left *)
+Theorem C02_path_fill_spec :
+  forall p es start stop rc eo out,
+  build_edges p 0 = Some (Some es) -> fill_spans es start stop rc eo 0 = Some out ->
+  (forall e, In e es -> start <= e_first_y e) -> 0 <= start -> 0 <= stop ->
+  exists acts : Z -> list ledge,
+    (forall yy, start <= yy -> (yy < stop \/ yy = start) -> asc (acts yy) /\ Permutation (acts yy) (active_at es yy)) /\
+    forall yy c, start <= yy -> (yy < stop \/ yy = start) -> (forall e, In e (acts yy) -> x_ok e) ->
+      (cov out yy c <-> masked (wsum (xs_of (active_at es yy)) c) eo = true).
+Proof. exact path_fill_spec. Qed.
